@@ -2,6 +2,7 @@
 import z3
 
 from pyvc.spec import Registry, SpecFn
+from pyvc import ext_C19 as X
 from pyvc.values import Iter, Opaque, PList, Sym, fresh, fresh_name, to_z3
 
 POP = "swcgeom/core/population.py"
@@ -20,6 +21,10 @@ def _p_len(eng, recv, args, kwargs):
 
 
 def _p_getitem(eng, recv, args, kwargs):
+    if not eng.spec_mode and not getattr(eng, "pure_mode", 0):
+        # ghost log: a lookup in a member is a REQUEST for that member's tree (it may load a file there); clauses count
+        # these with ncalls('Trees.__getitem__') / callarg('Trees.__getitem__', j, 'self' | 'key')
+        eng.call_log.append(("Trees.__getitem__", dict(self=Sym(recv.z, "ref"), key=args[0])))
     return Sym(ITEM(recv.z, to_z3(args[0], "int")), "ref")
 
 
@@ -98,6 +103,12 @@ def register(R: Registry):
             "self.cumsum[m] <= ite(key < 0, key + self.cumsum[len_(self.trees)], key) and "
             "ite(key < 0, key + self.cumsum[len_(self.trees)], key) < self.cumsum[m + 1] and "
             "same(result, item(self.trees[m], ite(key < 0, key + self.cumsum[len_(self.trees)], key) - self.cumsum[m])))",
+            # "only when that file's tree is requested", through a chain: exactly ONE member is asked, for exactly that tree
+            "exactly-one-member-lookup-for-the-requested-tree :: ncalls('Trees.__getitem__') == 1 and exists(0, len_(self.trees), lambda m: "
+            "self.cumsum[m] <= ite(key < 0, key + self.cumsum[len_(self.trees)], key) and "
+            "ite(key < 0, key + self.cumsum[len_(self.trees)], key) < self.cumsum[m + 1] and "
+            "same(callarg('Trees.__getitem__', 0, 'self'), self.trees[m]) and "
+            "callarg('Trees.__getitem__', 0, 'key') == ite(key < 0, key + self.cumsum[len_(self.trees)], key) - self.cumsum[m])",
         ],
         loops={
             0: dict(
@@ -146,6 +157,13 @@ TREE = "swcgeom/core/tree.py"
 TREE_OF = z3.Function("tree_of", _I, _I)  # ghost: the tree stored in a file
 GHOST["tree_of"] = SpecFn(lambda e, a, k: Sym(TREE_OF(to_z3(a[0], "int")), "oref"), "tree_of")
 
+# GHOST STATE of a LazyLoadingTrees object: the field `reads` (a list of ints, one per file) counts the calls of
+# Tree.from_swc made for that slot.  The program never touches it: it is created by the constructor's ghost_exit (also when
+# the constructor is inlined at a call site), incremented by the ghost_exit of `load` once per LOGGED Tree.from_swc call,
+# and every other method sees it only through the contracts of `load` / `__getitem__`.  The object invariant
+# 0 <= reads[j] <= 1  and  (reads[j] == 0  <->  trees[j] is None)  makes "each file is read at most once" a clause that
+# every method re-establishes, and the frame clauses ("only the requested slot's counter may move") make "only on request" one.
+
 
 def lazy_obj(S, name="lz"):
     from swcgeom.core.population import LazyLoadingTrees
@@ -153,17 +171,67 @@ def lazy_obj(S, name="lz"):
 
     swcs = S.plist("ref", name=name + "_swcs")
     trees = S.plist("oref", name=name + "_trees")
-    return S.obj(LazyLoadingTrees, swcs=swcs, trees=trees, kwargs=PDict({}))
+    reads = S.plist("int", name=name + "_reads")
+    return S.obj(LazyLoadingTrees, swcs=swcs, trees=trees, kwargs=PDict({}), reads=reads)
 
 
-WF_LAZY = [
-    "wf-same-length :: len_(self.trees) == len_(self.swcs)",
-    "wf-cache-is-file-content :: forall(0, len_(self.swcs), lambda j: implies(not same(self.trees[j], None), same(self.trees[j], tree_of(self.swcs[j]))))",
-]
+def wf_lazy(p="self"):
+    return [
+        f"wf-same-length :: len_({p}.trees) == len_({p}.swcs) and len_({p}.reads) == len_({p}.swcs)",
+        f"wf-cache-is-file-content :: forall(0, len_({p}.swcs), lambda j: implies(not same({p}.trees[j], None), same({p}.trees[j], tree_of({p}.swcs[j]))))",
+        f"wf-each-file-read-at-most-once-and-cached-iff-read :: forall(0, len_({p}.swcs), lambda j: 0 <= {p}.reads[j] and {p}.reads[j] <= 1 and iff({p}.reads[j] == 0, same({p}.trees[j], None)))",
+    ]
+
+
+def frame_lazy(p="self", slot=None):
+    """what a method may do to the cache and the read counters: nothing outside `slot` (an expression), a cached tree is never
+    dropped or replaced, no counter ever decreases, and the counter of `slot` moves by one exactly when that slot was empty"""
+    out = [
+        f"files-untouched :: len_({p}.swcs) == len_(old({p}.swcs)) and forall(0, len_({p}.swcs), lambda j: same({p}.swcs[j], old({p}.swcs)[j]))",
+        f"lengths-kept :: len_({p}.trees) == len_(old({p}.trees)) and len_({p}.reads) == len_(old({p}.reads))",
+    ]
+    if slot is None:
+        out.append(f"nothing-read-nothing-loaded :: forall(0, len_({p}.trees), lambda j: same({p}.trees[j], old({p}.trees)[j]) and {p}.reads[j] == old({p}.reads)[j])")
+    else:
+        out += [
+            f"only-the-requested-slot-may-change :: forall(0, len_({p}.trees), lambda j: implies(j != {slot}, same({p}.trees[j], old({p}.trees)[j]) and {p}.reads[j] == old({p}.reads)[j]))",
+            f"requested-file-read-only-if-not-cached :: {p}.reads[{slot}] == old({p}.reads)[{slot}] + ite(same(old({p}.trees)[{slot}], None), 1, 0) "
+            f"and implies(not same(old({p}.trees)[{slot}], None), same({p}.trees[{slot}], old({p}.trees)[{slot}]))",
+        ]
+    return out
+
+
+WF_LAZY = wf_lazy("self")
+NORM = "ite(key < 0, key + len_(self.swcs), key)"
+
+
+def _count_reads(E, v, o):
+    """ghost_exit of LazyLoadingTrees.load: reads[key] += number of Tree.from_swc calls this execution made"""
+    n = sum(1 for nm, _ in E.call_log if nm == "Tree.from_swc")
+    if n:
+        r = v["self"].fields["reads"]
+        kz = to_z3(v["key"], "int")
+        r.cols = [z3.Store(r.cols[0], kz, z3.Select(r.cols[0], kz) + n)]
+
+
+def _init_reads(E, v, o):
+    """ghost_exit of LazyLoadingTrees.__init__ (also run where the constructor is inlined): no file has been read"""
+    from pyvc.values import zint
+
+    s = v["self"]
+    n = s.fields["swcs"]
+    r = PList()
+    r.items, r.kinds, r.tup, r.name = None, ["int"], False, "reads"
+    r.cols = [z3.K(_I, z3.IntVal(0))]
+    r.n = zint(len(n.items)) if n.items is not None else n.n
+    s.fields["reads"] = r
 
 
 def register_lazy(R):
-    # assumed contract of the reader (its own correctness is C01/C02)
+    # ASSUMED contract of the reader.  `not None` is the proved clause C02 `Tree.from_swc/post/something-is-returned`
+    # (contracts/C02.py, registered under the alias key Tree.<locals>.from_swc because its carrier is verified over an abstract
+    # file); `tree_of(file)` NAMES the tree a file denotes (reader deterministic, file system static while the population is
+    # used; what that tree is, is C01/C02).  Unreadable / malformed files (C02: ValueError) are outside C19's quantifier.
     R.add(
         f"{TREE}:Tree.from_swc",
         prop="C19",
@@ -182,18 +250,22 @@ def register_lazy(R):
         f"{POP}:LazyLoadingTrees.__init__",
         prop="C19",
         setup=lambda S: (lambda m: dict(self=S.obj(__import__("swcgeom.core.population", fromlist=["x"]).LazyLoadingTrees), swcs=m, __ghost__=GHOST))(S.plist("ref", name="files")),
+        ghost_exit=_init_reads,
+        options=dict(ghost_exit_inlined=True),
         ensures=[
             "files-kept :: len_(self.swcs) == len_(swcs) and forall(0, len_(swcs), lambda j: same(self.swcs[j], swcs[j]))",
             "nothing-loaded :: len_(self.trees) == len_(self.swcs) and forall(0, len_(self.swcs), lambda j: same(self.trees[j], None))",
             "construction-reads-no-file :: ncalls('Tree.from_swc') == 0",
-        ],
+            "no-file-counted-as-read :: len_(self.reads) == len_(self.swcs) and forall(0, len_(self.swcs), lambda j: self.reads[j] == 0)",
+        ] + [c.replace("wf-", "inv-established/") for c in wf_lazy("self")],
     )
     R.add(
         f"{POP}:LazyLoadingTrees.load",
         prop="C19",
         setup=lambda S: dict(self=lazy_obj(S), key=S.int("key"), __ghost__=GHOST),
         requires=WF_LAZY + ["key-in-range :: 0 <= key and key < len_(self.swcs)"],
-        modifies=["self.trees"],
+        modifies=["self.trees", "self.reads"],
+        ghost_exit=_count_reads,
         ensures=[
             "loaded :: not same(self.trees[key], None)",
             "is-the-file-content :: same(self.trees[key], tree_of(self.swcs[key]))",
@@ -202,23 +274,27 @@ def register_lazy(R):
             "cached-tree-kept-without-reading :: implies(not same(old(self.trees)[key], None), same(self.trees[key], old(self.trees)[key]) and ncalls('Tree.from_swc') == 0)",
             "reads-own-file-exactly-once :: implies(same(old(self.trees)[key], None), ncalls('Tree.from_swc') == 1 and same(callarg('Tree.from_swc', 0, 'swc_file'), self.swcs[key]))",
             "never-reads-twice :: ncalls('Tree.from_swc') <= 1",
-        ],
+            # the per-file read counter (ghost): counts the logged reads, stays <= 1, moves for the requested slot only
+            "read-counter-counts-the-read :: self.reads[key] == old(self.reads)[key] + ite(same(old(self.trees)[key], None), 1, 0)",
+            "other-counters-untouched :: len_(self.reads) == len_(old(self.reads)) and forall(0, len_(self.reads), lambda j: implies(j != key, self.reads[j] == old(self.reads)[j]))",
+            "each-file-read-at-most-once :: self.reads[key] <= 1",
+        ] + [c.replace("wf-", "inv-kept/") for c in wf_lazy("self")],
     )
     R.add(
         f"{POP}:LazyLoadingTrees.__getitem__",
         prop="C19",
         setup=lambda S: dict(self=lazy_obj(S), key=S.int("key"), __ghost__=GHOST),
         requires=WF_LAZY,
-        modifies=["self.trees"],
+        modifies=["self.trees", "self.reads"],
         raises={"IndexError": "out-of-range-only :: key < -len_(self.swcs) or key >= len_(self.swcs)"},
         returns="oref",
         ensures=[
             "in-range-accepted :: -len_(self.swcs) <= key and key < len_(self.swcs)",
-            "tree-of-the-ith-file :: same(result, tree_of(self.swcs[ite(key < 0, key + len_(self.swcs), key)])) and not same(result, None)",
-            "only-that-entry-changes :: len_(self.trees) == len_(old(self.trees)) and forall(0, len_(self.trees), lambda j: implies(j != ite(key < 0, key + len_(self.swcs), key), same(self.trees[j], old(self.trees)[j])))",
-            "loads-only-the-requested-file :: ncalls('LazyLoadingTrees.load') == 1 and callarg('LazyLoadingTrees.load', 0, 'key') == ite(key < 0, key + len_(self.swcs), key)",
-            "wf-kept :: forall(0, len_(self.swcs), lambda j: implies(not same(self.trees[j], None), same(self.trees[j], tree_of(self.swcs[j]))))",
-        ],
+            f"tree-of-the-ith-file :: same(result, tree_of(self.swcs[{NORM}])) and not same(result, None)",
+            f"only-that-entry-changes :: len_(self.trees) == len_(old(self.trees)) and forall(0, len_(self.trees), lambda j: implies(j != {NORM}, same(self.trees[j], old(self.trees)[j])))",
+            f"loads-only-the-requested-file :: ncalls('LazyLoadingTrees.load') == 1 and callarg('LazyLoadingTrees.load', 0, 'key') == {NORM}",
+            f"returns-the-cached-tree :: same(result, self.trees[{NORM}])",
+        ] + [c for c in frame_lazy("self", NORM) if not c.startswith("files-untouched")] + [c.replace("wf-", "inv-kept/") for c in wf_lazy("self")],
     )
 
     def pop_obj(S):
@@ -230,20 +306,21 @@ def register_lazy(R):
         f"{POP}:Population.__init__",
         prop="C19",
         setup=lambda S: dict(self=S.obj(__import__("swcgeom.core.population", fromlist=["x"]).Population), swcs=lazy_obj(S), __ghost__=GHOST),
-        requires=["wf-same-length :: len_(swcs.trees) == len_(swcs.swcs)",
-                  "wf-cache-is-file-content :: forall(0, len_(swcs.swcs), lambda j: implies(not same(swcs.trees[j], None), same(swcs.trees[j], tree_of(swcs.swcs[j]))))"],
+        requires=wf_lazy("swcs"),
         ensures=[
             "holds-the-trees :: same(self.trees, swcs)",
             "at-most-a-probe-of-the-first-file :: ncalls('LazyLoadingTrees.__getitem__') <= 1 and implies(ncalls('LazyLoadingTrees.__getitem__') == 1, callarg('LazyLoadingTrees.__getitem__', 0, 'key') == 0)",
             "no-direct-read :: ncalls('Tree.from_swc') == 0 and ncalls('LazyLoadingTrees.load') == 0",
-        ],
+            "only-the-first-file-may-have-been-read :: len_(swcs.reads) == len_(old(swcs.reads)) and forall(1, len_(swcs.reads), lambda j: swcs.reads[j] == old(swcs.reads)[j] and same(swcs.trees[j], old(swcs.trees)[j]))",
+        ] + [c.replace("wf-", "inv-kept/") for c in wf_lazy("swcs")],
     )
     R.add(
         f"{POP}:Population.__len__",
         prop="C19",
-        setup=lambda S: dict(self=pop_obj(S), __ghost__=GHOST),
+        variants={"lazy": lambda S: dict(self=pop_obj(S), __ghost__=GHOST),
+                  "any-trees": lambda S: dict(self=S.obj(__import__("swcgeom.core.population", fromlist=["x"]).Population, trees=Opaque(z3.Int(fresh_name("trees")), TREES_PROTO), root=""), __ghost__=GHOST)},
         returns="int",
-        ensures=["number-of-files :: result == len_(self.trees.swcs)"],
+        ensures=["number-of-trees :: result == len_(self.trees)"],
     )
     R.add(
         f"{POP}:Population.__getitem__",
@@ -251,13 +328,12 @@ def register_lazy(R):
         variants={
             "int": lambda S: dict(self=pop_obj(S), key=S.int("key"), __ghost__=GHOST),
         },
-        requires=["wf-same-length :: len_(self.trees.trees) == len_(self.trees.swcs)",
-                  "wf-cache-is-file-content :: forall(0, len_(self.trees.swcs), lambda j: implies(not same(self.trees.trees[j], None), same(self.trees.trees[j], tree_of(self.trees.swcs[j]))))"],
+        requires=wf_lazy("self.trees"),
         raises={"IndexError": "out-of-range-only :: key < -len_(self.trees.swcs) or key >= len_(self.trees.swcs)"},
         ensures=[
             "tree-of-the-ith-file :: same(result, tree_of(self.trees.swcs[ite(key < 0, key + len_(self.trees.swcs), key)]))",
             "one-delegated-lookup :: ncalls('LazyLoadingTrees.__getitem__') == 1",
-        ],
+        ] + frame_lazy("self.trees", "ite(key < 0, key + len_(self.trees.swcs), key)") + [c.replace("wf-", "inv-kept/") for c in wf_lazy("self.trees")],
     )
 
 
@@ -323,6 +399,7 @@ def register_nest(R):
           setup=lambda S: dict(self=nest_obj(S), key=S.int("key")), returns="ref",
           raises={"IndexError": ("out-of-range-only", lambda E, v, o: z3.Or(to_z3(v["key"], "int") < -zint(v["self"].fields["idx"].n), to_z3(v["key"], "int") >= zint(v["self"].fields["idx"].n)))},
           ensures=[("the-tree-at-the-selected-index-of-the-underlying-container", get_post)],
+          pure_inline=True,  # one-line indirection: callers (whose container may be a real LazyLoadingTrees) inline the body
           options=dict(strict_index=False))
 
     # Populations.__getitem__(int): one tree per population, in population order
@@ -354,3 +431,1135 @@ _reg19 = register
 def register(R):  # noqa: F811
     _reg19(R)
     register_nest(R)
+
+
+# ---------------------------------------------------------------------------
+# Iteration.  `__iter__` returns a generator expression whose element `self[i]` has a side effect (it may load file i), so the
+# contract has two parts:  (1) postconditions about the CREATION of the iterator (a lazy iterator with one item per tree;
+# nothing is read, nothing changes);  (2) the ITEM RULE (pyvc/ext_C19.py: arbitrary_item): for an arbitrary position k and an
+# arbitrary state satisfying the object invariant, the REAL element expression is run for position k and the `item/...`
+# obligations are proved: item k is the tree of the k-th file, only slot k may change, at most one read and none if cached,
+# the invariant is kept (so it holds again when item k+1 is requested, whatever happened in between through other methods).
+def _is_lazy_iter(n_expr):
+    def f(E, v, o):
+        r = v["result"]
+        if not isinstance(r, X.LazySeq):
+            return False
+        return r.nz() == to_z3(_eval_term(E, n_expr, v), "int")
+
+    return f
+
+
+def _eval_term(E, text, vars):
+    """value of a clause-language term over `vars`"""
+    import ast as _ast
+
+    from pyvc.engine import Frame
+    from pyvc.spec import SPECLIB
+
+    g = dict(SPECLIB)
+    g.update(E.spec_extra)
+    return E.ev(_ast.parse(text, mode="eval").body, Frame(vars=dict(vars), globs=g))
+
+
+CREATION = "creating-the-iterator-requests-nothing :: ncalls('LazyLoadingTrees.__getitem__') == 0 and ncalls('LazyLoadingTrees.load') == 0 and ncalls('Tree.from_swc') == 0 and ncalls('Trees.__getitem__') == 0 and ncalls('ChainTrees.__getitem__') == 0"
+
+
+def item_lazy(p):
+    return ([f"item-k-is-the-tree-of-the-k-th-file :: same(got, tree_of({p}.swcs[k])) and not same(got, None)",
+             "requests-exactly-item-k :: ncalls('LazyLoadingTrees.__getitem__') == 1 and callarg('LazyLoadingTrees.__getitem__', 0, 'key') == k"]
+            + frame_lazy(p, "k") + [c.replace("wf-", "inv-kept/") for c in wf_lazy(p)])
+
+
+def register_iter(R):
+    from swcgeom.core.population import ChainTrees, LazyLoadingTrees, Population  # noqa: F401
+
+    def pop_lazy(S):
+        return S.obj(Population, trees=lazy_obj(S), root="")
+
+    def pop_any(S):
+        return S.obj(Population, trees=Opaque(z3.Int(fresh_name("trees")), TREES_PROTO), root="")
+
+    # ------------------------------------------------------------------ LazyLoadingTrees.__iter__
+    R.add(f"{POP}:LazyLoadingTrees.__iter__", prop="C19",
+          setup=lambda S: dict(self=lazy_obj(S), __ghost__=GHOST),
+          requires=WF_LAZY,
+          options=dict(genexp_hook=X.genexp_hook),
+          ghost_exit=lambda E, v, o: X.arbitrary_item(E, v["result"], "LazyLoadingTrees.__iter__/item", dict(self=v["self"]), WF_LAZY, item_lazy("self")),
+          ensures=[("a-lazy-iterator-with-one-item-per-file", _is_lazy_iter("len_(self.swcs)")), CREATION] + frame_lazy("self"))
+
+    # ------------------------------------------------------------------ Population.__iter__
+    def pop_iter_exit(E, v, o):
+        s = v["self"]
+        if isinstance(s.fields["trees"], Opaque):
+            X.arbitrary_item(E, v["result"], "Population.__iter__/item", dict(self=s), [],
+                             ["item-k-is-the-k-th-tree-of-the-container :: same(got, item(self.trees, k))",
+                              "requests-exactly-item-k :: ncalls('Trees.__getitem__') == 1 and same(callarg('Trees.__getitem__', 0, 'self'), self.trees) and callarg('Trees.__getitem__', 0, 'key') == k"])
+        else:
+            X.arbitrary_item(E, v["result"], "Population.__iter__/item", dict(self=s), wf_lazy("self.trees"), item_lazy("self.trees"))
+
+    R.add(f"{POP}:Population.__iter__", prop="C19",
+          variants={"lazy": lambda S: dict(self=pop_lazy(S), __ghost__=GHOST), "any-trees": lambda S: dict(self=pop_any(S), __ghost__=GHOST)},
+          requires=[("object-invariant-of-a-lazy-container", lambda E, v, o: True if isinstance(v["self"].fields["trees"], Opaque) else _all(E, wf_lazy("self.trees"), v))],
+          options=dict(genexp_hook=X.genexp_hook),
+          ghost_exit=pop_iter_exit,
+          ensures=[("a-lazy-iterator-with-one-item-per-tree", _is_lazy_iter("len_(self.trees)")), CREATION,
+                   ("creating-the-iterator-changes-nothing", lambda E, v, o: True if isinstance(v["self"].fields["trees"], Opaque) else _all(E, frame_lazy("self.trees"), v, o))])
+
+    # ------------------------------------------------------------------ ChainTrees.__iter__
+    R.add(f"{POP}:ChainTrees.__iter__", prop="C19",
+          setup=lambda S: dict(self=chain_obj(S), __ghost__=GHOST),
+          requires=WF_CHAIN,
+          options=dict(genexp_hook=X.genexp_hook),
+          ghost_exit=lambda E, v, o: X.arbitrary_item(
+              E, v["result"], "ChainTrees.__iter__/item", dict(self=v["self"]), WF_CHAIN,
+              ["item-k-is-the-element-of-the-member-whose-window-contains-k :: exists(0, len_(self.trees), lambda m: self.cumsum[m] <= k and k < self.cumsum[m + 1] and same(got, item(self.trees[m], k - self.cumsum[m])))",
+               "requests-exactly-item-k :: ncalls('ChainTrees.__getitem__') == 1 and callarg('ChainTrees.__getitem__', 0, 'key') == k"]),
+          ensures=[("a-lazy-iterator-with-one-item-per-chained-tree", _is_lazy_iter("self.cumsum[len_(self.trees)]")), CREATION])
+
+
+def _all(E, clauses, v, o=None):
+    from pyvc.spec import eval_clause, split_label
+
+    acc = True
+    for j, cl in enumerate(clauses):
+        _, text = split_label(cl, f"c{j}")
+        acc = E.and_(acc, eval_clause(E, text, v, None, old_vars=o, extra=E.spec_extra))
+    return acc
+
+
+_reg19b = register
+
+
+def register(R):  # noqa: F811
+    _reg19b(R)
+    register_iter(R)
+
+
+# ---------------------------------------------------------------------------
+# Population.__getitem__(slice): a NestTrees over the SAME container whose index list is Python's slice selection of
+# range(len(self)), in order; nothing is read.  (Element k of the slice is then item(trees, idx[k]) by NestTrees.__getitem__.)
+def py_slice_spec(n, a, b, st):
+    """(first, count) of list(range(n))[a:b:st] for a concrete step st != 0, written from the language reference
+    (negative bounds count from the end, bounds are clipped, a missing bound means "as far as the step direction goes")"""
+    if st > 0:
+        lo_clip, hi_clip = z3.IntVal(0), n
+    else:
+        lo_clip, hi_clip = z3.IntVal(-1), n - 1
+
+    def norm(x, missing):
+        if x is None:
+            return missing
+        xz = to_z3(x, "int")
+        y = z3.If(xz < 0, xz + n, xz)
+        return z3.If(y < lo_clip, lo_clip, z3.If(y > hi_clip, hi_clip, y))
+
+    if st > 0:
+        s, e = norm(a, z3.IntVal(0)), norm(b, n)
+        cnt = z3.If(e > s, (e - s + (st - 1)) / st, z3.IntVal(0))
+    else:
+        s, e = norm(a, n - 1), norm(b, z3.IntVal(-1))
+        cnt = z3.If(s > e, (s - e + (-st - 1)) / (-st), z3.IntVal(0))
+    return s, cnt
+
+
+def register_slice(R):
+    from pyvc.values import Obj, zint
+    from swcgeom.core.population import NestTrees, Population
+
+    def pop_lazy(S):
+        return S.obj(Population, trees=lazy_obj(S), root="")
+
+    def setup(a_sym, b_sym, st):
+        def f(S):
+            key = slice(S.int("start") if a_sym else None, S.int("stop") if b_sym else None, st)
+            return dict(self=pop_lazy(S), key=key, __ghost__=GHOST)
+
+        return f
+
+    def parts(v, o):
+        r, key = v["result"], o["key"]
+        if not (isinstance(r, Obj) and r.cls is NestTrees and isinstance(r.fields.get("idx"), PList)):
+            return None, None, None, None, None
+        n = zint(v["self"].fields["trees"].fields["swcs"].n)
+        st = 1 if key.step is None else key.step
+        s, cnt = py_slice_spec(n, key.start, key.stop, st)
+        return r, n, st, s, cnt
+
+    def same_container(E, v, o):
+        r = v["result"]
+        return isinstance(r, Obj) and r.cls is NestTrees and r.fields.get("trees") is v["self"].fields["trees"] and isinstance(r.fields.get("idx"), PList) and r.fields["idx"].uid not in E.entry_uids
+
+    def selection(E, v, o):
+        r, n, st, s, cnt = parts(v, o)
+        if r is None or r.fields["idx"].items is not None:
+            return False
+        L = r.fields["idx"]
+        t = z3.Int(fresh_name("t"))
+        return z3.And(zint(L.n) == cnt, z3.ForAll([t], z3.Implies(z3.And(t >= 0, t < cnt), z3.Select(L.cols[0], t) == s + t * st)))
+
+    def valid(E, v, o):
+        r, n, st, s, cnt = parts(v, o)
+        if r is None or r.fields["idx"].items is not None:
+            return False
+        L = r.fields["idx"]
+        t = z3.Int(fresh_name("t"))
+        return z3.ForAll([t], z3.Implies(z3.And(t >= 0, t < zint(L.n)), z3.And(z3.Select(L.cols[0], t) >= 0, z3.Select(L.cols[0], t) < n)))
+
+    def whole(E, v, o):
+        """[:] selects 0..n-1, [::-1] selects n-1..0 (sanity anchors of the specification itself)"""
+        r, n, st, s, cnt = parts(v, o)
+        key = o["key"]
+        if r is None or r.fields["idx"].items is not None:
+            return False
+        if key.start is not None or key.stop is not None or st not in (1, -1):
+            return True
+        L = r.fields["idx"]
+        t = z3.Int(fresh_name("t"))
+        return z3.And(zint(L.n) == n, z3.ForAll([t], z3.Implies(z3.And(t >= 0, t < n), z3.Select(L.cols[0], t) == (t if st == 1 else n - 1 - t))))
+
+    ENS = ([("slice/an-index-view-of-the-same-container-with-a-private-index-list", same_container),
+            ("slice/selects-exactly-the-positions-of-python's-slice-in-order", selection),
+            ("slice/every-selected-position-is-a-valid-index", valid),
+            ("slice/whole-and-reversed-anchors", whole),
+            "slice/slicing-requests-no-tree :: ncalls('LazyLoadingTrees.__getitem__') == 0 and ncalls('LazyLoadingTrees.load') == 0 and ncalls('Tree.from_swc') == 0"]
+           + ["slice/" + c for c in frame_lazy("self.trees")])
+    for st in (None, 1, -1, 2, -3):  # one contract per step (a construct unsupported for one step must not hide the verdict of the others)
+        variants = {}
+        for a_sym, b_sym in ((True, True), (False, False), (True, False), (False, True)):
+            nm = f"[{'a' if a_sym else ''}:{'b' if b_sym else ''}:{'' if st is None else st}]"
+            variants[nm] = setup(a_sym, b_sym, st)
+        R.add(f"{POP}:Population.__getitem__", prop="C19", variants=variants, requires=wf_lazy("self.trees"), ensures=ENS,
+              notes=f"slice form, step {st}: start / stop symbolic or missing")
+
+
+_reg19c = register
+
+
+def register(R):  # noqa: F811
+    _reg19c(R)
+    register_slice(R)
+
+
+# ---------------------------------------------------------------------------
+# filter_population(pop, predicate): `[i for i, t in enumerate(pop) if predicate(t)]` consumes the population's LAZY iterator
+# (every tree is requested once, in order), then wraps an index view.  The predicate is an arbitrary PURE function of the tree
+# (uninterpreted PRED).  Ghost vocabulary (definitions, see `filter_defs`): P(j) = PRED(j-th tree), CNT(k) = number of j < k with
+# P(j), KAP(m) = the m-th position that satisfies the predicate.
+PRED = z3.Function("pred", _I, z3.BoolSort())
+CNT = z3.Function("cnt_sel", _I, _I)
+KAP = z3.Function("kap_sel", _I, _I)
+
+
+def register_filter(R):
+    from pyvc.values import Obj, zint
+    from swcgeom.core.population import NestTrees, Population
+
+    def tree_at(v, j):
+        """the j-th tree of the population `pop` (a z3 term)"""
+        t = v["pop"].fields["trees"]
+        if isinstance(t, Opaque):
+            return ITEM(t.z, j)
+        return TREE_OF(z3.Select(t.fields["swcs"].cols[0], j))
+
+    def nof(v):
+        t = v["pop"].fields["trees"]
+        return TLEN(t.z) if isinstance(t, Opaque) else zint(t.fields["swcs"].n)
+
+    def P(v, j):
+        return PRED(tree_at(v, j))
+
+    def filter_defs(E, fr):
+        """definitional facts about the fresh ghost functions CNT / KAP (CNT by recursion over positions; KAP is defined at the
+        values CNT(j) of the selected positions j, which are pairwise different because CNT grows by one at each of them)"""
+        v = fr.vars
+        j = z3.Int(fresh_name("j"))
+        E.assume(CNT(0) == 0)
+        E.assume(z3.ForAll([j], z3.Implies(j >= 0, CNT(j + 1) == CNT(j) + z3.If(P(v, j), 1, 0)), patterns=[CNT(j + 1)]))
+        E.assume(z3.ForAll([j], z3.Implies(z3.And(j >= 0, P(v, j)), KAP(CNT(j)) == j), patterns=[CNT(j)]))
+        E.assumptions.add("ghost definitions (filter_population): CNT(k) = number of positions j < k whose tree satisfies the predicate (recursion), KAP(CNT(j)) = j for every such j")
+
+    def inv(name, f):
+        return (name, lambda E, v, o: f(v, to_z3(v["_k"], "int"), v["__out__"]))
+
+    m, m2, j = z3.Int("m"), z3.Int("m2"), z3.Int("j")
+
+    def lazy_part(v, k, out):
+        t = v["pop"].fields["trees"]
+        if isinstance(t, Opaque):
+            return z3.BoolVal(True)
+        T = t.fields["trees"].cols[0]
+        return z3.ForAll([j], z3.Implies(z3.And(j >= 0, j < k), z3.Select(T, j) != 0))
+
+    INV = [
+        inv("count", lambda v, k, out: z3.And(zint(out.n) == CNT(k), CNT(k) >= 0, CNT(k) <= k)),
+        inv("kept-so-far-are-the-selected-positions-in-order", lambda v, k, out: z3.ForAll([m], z3.Implies(z3.And(m >= 0, m < CNT(k)), z3.Select(out.cols[0], m) == KAP(m)))),
+        inv("selected-positions-are-earlier-positions-that-satisfy-the-predicate", lambda v, k, out: z3.ForAll([m], z3.Implies(z3.And(m >= 0, m < CNT(k)), z3.And(KAP(m) >= 0, KAP(m) < k, P(v, KAP(m)), CNT(KAP(m)) == m)))),
+        inv("every-earlier-position-that-satisfies-the-predicate-is-selected", lambda v, k, out: z3.ForAll([j], z3.Implies(z3.And(j >= 0, j < k, P(v, j)), z3.And(CNT(j) >= 0, CNT(j) < CNT(k), KAP(CNT(j)) == j)))),
+        inv("increasing", lambda v, k, out: z3.ForAll([m, m2], z3.Implies(z3.And(m >= 0, m < m2, m2 < CNT(k)), KAP(m) < KAP(m2)))),
+        inv("every-tree-requested-so-far-is-loaded", lazy_part),
+        ("object-invariant", lambda E, v, o: True if isinstance(v["pop"].fields["trees"], Opaque) else _all(E, wf_lazy("pop.trees"), v)),
+        ("files-untouched", lambda E, v, o: True if isinstance(v["pop"].fields["trees"], Opaque) else _all(E, frame_lazy("pop.trees")[:1], v, o)),
+    ]
+
+    def setup(lazy):
+        def f(S):
+            trees = lazy_obj(S) if lazy else Opaque(z3.Int(fresh_name("trees")), TREES_PROTO)
+            pop = S.obj(Population, trees=trees, root="root")
+            return dict(pop=pop, predicate=S.callback("predicate", lambda E, a, k: E.sbool(PRED(to_z3(a[0], "int")))), __ghost__=GHOST)
+
+        return f
+
+    def view(E, v, o):
+        r = v["result"]
+        if not (isinstance(r, Obj) and r.cls is Population and r.fields.get("root") == "root"):
+            return False
+        nt = r.fields.get("trees")
+        return isinstance(nt, Obj) and nt.cls is NestTrees and nt.fields.get("trees") is v["pop"].fields["trees"] and isinstance(nt.fields.get("idx"), PList) and nt.fields["idx"].uid not in E.entry_uids
+
+    def idx_of(v):
+        return v["result"].fields["trees"].fields["idx"]
+
+    def kept(E, v, o):
+        L, n = idx_of(v), nof(v)
+        return z3.And(zint(L.n) == CNT(n),
+                      z3.ForAll([m], z3.Implies(z3.And(m >= 0, m < zint(L.n)), z3.And(z3.Select(L.cols[0], m) >= 0, z3.Select(L.cols[0], m) < n, P(v, z3.Select(L.cols[0], m))))))
+
+    def complete(E, v, o):
+        L, n = idx_of(v), nof(v)
+        return z3.ForAll([j], z3.Implies(z3.And(j >= 0, j < n, P(v, j)), z3.And(CNT(j) >= 0, CNT(j) < zint(L.n), z3.Select(L.cols[0], CNT(j)) == j)))
+
+    def ordered(E, v, o):
+        L = idx_of(v)
+        return z3.ForAll([m, m2], z3.Implies(z3.And(m >= 0, m < m2, m2 < zint(L.n)), z3.Select(L.cols[0], m) < z3.Select(L.cols[0], m2)))
+
+    R.add(f"{POP}:filter_population", prop="C19",
+          variants={"lazy": setup(True), "any-trees": setup(False)},
+          requires=[("object-invariant-of-a-lazy-container", lambda E, v, o: True if isinstance(v["pop"].fields["trees"], Opaque) else _all(E, wf_lazy("pop.trees"), v))],
+          lemmas=[filter_defs],
+          options=dict(genexp_hook=X.genexp_hook, comprehension_hook=X.comprehension_hook,
+                       comprehension_rule=dict(kind="int", label="filter", invariant=INV)),
+          ensures=[("a-population-over-an-index-view-of-the-same-container-same-root", view),
+                   ("keeps-only-positions-whose-tree-satisfies-the-predicate", kept),
+                   ("keeps-every-position-whose-tree-satisfies-the-predicate", complete),
+                   ("keeps-them-in-order-each-once", ordered),
+                   ("each-file-read-at-most-once(object-invariant-kept)", lambda E, v, o: True if isinstance(v["pop"].fields["trees"], Opaque) else _all(E, wf_lazy("pop.trees") + frame_lazy("pop.trees")[:2], v, o))],
+          notes="the predicate is an arbitrary pure function of the tree (uninterpreted); the list comprehension is cut at the rule's invariant")
+
+
+_reg19d = register
+
+
+def register(R):  # noqa: F811
+    _reg19d(R)
+    register_filter(R)
+
+
+# ---------------------------------------------------------------------------
+# Directory walking.  os.walk / os.path.* / filter enter as models (pyvc/ext_C19.py): a walk is a symbolic sequence of
+# (dirpath, dirnames, filenames) triples determined by the root; paths are opaque references built by uninterpreted
+# join / relpath / splitext.  THE ORDER that defines "the i-th file" is the order of find_swcs' result: directories in os.walk
+# order, inside a directory the order of os.walk's filenames list -- the code does not sort.
+# Ghost vocabulary:  SELN(fl, ext) / SELK(fl, ext, m) / SELR(fl, ext, j): the order-preserving selection of the names of the
+# list fl whose extension is ext (characterised by the filter model's axioms);  OFF(root, ext, d) = number of selected files
+# in the first d directories of the walk (recursion).
+X.install()
+SELN = z3.Function("sel_len", _I, _I, _I)
+SELK = z3.Function("sel_pos", _I, _I, _I, _I)
+SELR = z3.Function("sel_rank", _I, _I, _I, _I)
+OFF = z3.Function("walk_off", _I, _I, _I, _I)
+GHOST["path_exists"] = SpecFn(lambda e, a, k: e.sbool(X.EXISTS(X.zref(a[0]))), "path_exists")
+
+
+def swc_filter(extz):
+    return X.DeclaredFilter("names-with-the-extension", [extz], lambda e, x: X.EXTOF(e) == x, SELN, SELK, SELR)
+
+
+def walk_defs(E, rz, xz):
+    d = z3.Int(fresh_name("d"))
+    E.assume(OFF(rz, xz, 0) == 0)
+    E.assume(z3.ForAll([d], z3.Implies(d >= 0, OFF(rz, xz, d + 1) == OFF(rz, xz, d) + SELN(X.WFILES(rz, d), xz)), patterns=[OFF(rz, xz, d + 1)]))
+    E.assumptions.add("ghost definition (find_swcs): OFF(root, ext, d) = number of names with the extension in the first d directories of the walk (recursion)")
+
+
+def _lview(L):
+    from pyvc.values import zint
+
+    if L.items is not None:
+        if L.items:
+            raise X.Unsupported("concrete non-empty list in a walk clause")
+        return z3.IntVal(0), (lambda t: z3.IntVal(0))
+    return zint(L.n), (lambda t: z3.Select(L.cols[0], t))
+
+
+def found_files(L, rz, xz, relpath, upto, with_axioms=True):
+    """the list L holds, directory by directory (the first `upto` of the walk of rz), the joined paths of the selected names"""
+    n, at = _lview(L)
+    d, m, j = z3.Int(fresh_name("d")), z3.Int(fresh_name("m")), z3.Int(fresh_name("j"))
+    fl = lambda t: X.WFILES(rz, t)
+    rr = (lambda t: X.RELPATH(X.WDIR(rz, t), rz)) if relpath else (lambda t: X.WDIR(rz, t))
+    off = lambda t: OFF(rz, xz, t)
+    flt = swc_filter(xz)
+    out = dict(
+        length=n == off(upto),
+        content=z3.ForAll([d, m], z3.Implies(z3.And(d >= 0, d < upto, m >= 0, m < SELN(fl(d), xz)),
+                                            at(off(d) + m) == X.JOIN(rr(d), X.FNAME(fl(d), SELK(fl(d), xz, m))))),
+        offsets=z3.ForAll([d], z3.Implies(z3.And(d >= 0, d <= upto), z3.And(off(d) >= 0, off(d) <= off(upto)))),
+    )
+    if with_axioms:
+        out["selection"] = z3.ForAll([d], z3.Implies(z3.And(d >= 0, d < upto), z3.And(X.FLEN(fl(d)) >= 0, *flt.axioms(fl(d), X.FLEN(fl(d)), lambda t, _d=d: X.FNAME(fl(_d), t)))))
+    return out
+
+
+def register_dirs(R):
+    from pyvc.values import zint
+    from swcgeom.core.population import LazyLoadingTrees, Population
+
+    def find_setup(relpath):
+        return lambda S: dict(root=X.StrRef(S.int("root").z), ext=X.StrRef(S.int("ext").z), relpath=relpath, __ghost__=GHOST)
+
+    def find_entry(E, old):
+        rz, xz = X.zref(old["root"]), X.zref(old["ext"])
+        X.declare_filter(E, swc_filter(xz))
+        walk_defs(E, rz, xz)
+
+    def inv(which):
+        def f(E, v, o):
+            rz, xz = X.zref(o["root"]), X.zref(o["ext"])
+            return found_files(v["swcs"], rz, xz, bool(o["relpath"]), to_z3(v["_k0"], "int"))[which]
+
+        return f
+
+    def post(which):
+        def f(E, v, o):
+            rz, xz = X.zref(o["root"]), X.zref(o["ext"])
+            r = v["result"]
+            if not isinstance(r, PList):
+                return False
+            return found_files(r, rz, xz, bool(o["relpath"]), X.WLEN(rz))[which]
+
+        return f
+
+    def listed_only(E, v, o):
+        """every entry is join(directory, name) of a name of that directory's list that carries the extension"""
+        rz, xz = X.zref(o["root"]), X.zref(o["ext"])
+        d, m = z3.Int(fresh_name("d")), z3.Int(fresh_name("m"))
+        fl = lambda t: X.WFILES(rz, t)
+        return z3.ForAll([d, m], z3.Implies(z3.And(d >= 0, d < X.WLEN(rz), m >= 0, m < SELN(fl(d), xz)),
+                                            z3.And(SELK(fl(d), xz, m) >= 0, SELK(fl(d), xz, m) < X.FLEN(fl(d)), X.EXTOF(X.FNAME(fl(d), SELK(fl(d), xz, m))) == xz,
+                                                   OFF(rz, xz, d) + m < OFF(rz, xz, d + 1))))
+
+    def all_listed(E, v, o):
+        """every name with the extension, of every directory of the walk, is listed (at the position its rank gives)"""
+        rz, xz = X.zref(o["root"]), X.zref(o["ext"])
+        n, at = _lview(v["result"])
+        d, j = z3.Int(fresh_name("d")), z3.Int(fresh_name("j"))
+        fl = lambda t: X.WFILES(rz, t)
+        rr = (lambda t: X.RELPATH(X.WDIR(rz, t), rz)) if o["relpath"] else (lambda t: X.WDIR(rz, t))
+        pos = OFF(rz, xz, d) + SELR(fl(d), xz, j)
+        return z3.ForAll([d, j], z3.Implies(z3.And(d >= 0, d < X.WLEN(rz), j >= 0, j < X.FLEN(fl(d)), X.EXTOF(X.FNAME(fl(d), j)) == xz),
+                                            z3.And(pos >= 0, pos < n, at(pos) == X.JOIN(rr(d), X.FNAME(fl(d), j)))))
+
+    R.add(f"{POP}:Population.find_swcs", prop="C19",
+          variants={"absolute": find_setup(False), "relpath": find_setup(True)},
+          ghost_entry=find_entry,
+          returns=lambda S, fr: S.plist("ref", name="found"),
+          loops={0: dict(invariant=[("length", inv("length")), ("content", inv("content")), ("offsets", inv("offsets")), ("selection", inv("selection"))],
+                         types={"swcs": "ref"})},
+          ensures=[("number-of-files-found", post("length")),
+                   ("i-th-file:directories-in-walk-order-names-in-listing-order-joined-with-the-directory", post("content")),
+                   ("offsets-are-monotone", post("offsets")),
+                   ("selection-is-order-preserving-in-every-directory", post("selection")),
+                   ("only-names-with-the-extension-are-listed", listed_only),
+                   ("every-name-with-the-extension-is-listed", all_listed),
+                   "a-fresh-list :: is_fresh(result)"],
+          notes="os.walk / os.path.join / relpath / splitext / filter are models (pyvc/ext_C19.py); walk, lists and extension symbolic")
+
+
+_reg19e = register
+
+
+def register(R):  # noqa: F811
+    _reg19e(R)
+    register_dirs(R)
+
+
+# ---------------------------------------------------------------------------
+# Population.from_swc / from_eswc: the population of the files found, in find_swcs' order; construction reads at most the
+# first file (the constructor's `isinstance(swcs[0], str)` probe), through LazyLoadingTrees.__getitem__(0).
+def register_from_swc(R):
+    from pyvc.values import Obj, PDict, zint
+    from swcgeom.core.population import LazyLoadingTrees, Population
+
+    def res_lz(v):
+        r = v["result"]
+        if not (isinstance(r, Obj) and r.cls is Population):
+            return None
+        lz = r.fields.get("trees")
+        if not (isinstance(lz, Obj) and lz.cls is LazyLoadingTrees and all(isinstance(lz.fields.get(f), PList) for f in ("swcs", "trees", "reads"))):
+            return None
+        return lz
+
+    def shape(E, v, o):
+        lz = res_lz(v)
+        return lz is not None and E.is_same(v["result"].fields.get("root"), o["root"]) is True and lz.fields["swcs"].uid not in E.entry_uids
+
+    def files(which):
+        def f(E, v, o):
+            lz = res_lz(v)
+            if lz is None:
+                return False
+            rz, xz = X.zref(o["root"]), X.zref(o["ext"])
+            return found_files(lz.fields["swcs"], rz, xz, False, X.WLEN(rz), with_axioms=False)[which]
+
+        return f
+
+    def one_walk(E, v, o):
+        cs = [a for nm, a in E.call_log if nm == "Population.find_swcs"]
+        return len(cs) == 1 and E.is_same(cs[0]["root"], o["root"]) is True and E.is_same(cs[0]["ext"], o["ext"]) is True and cs[0]["relpath"] is False
+
+    def lazy_state(E, v, o):
+        """nothing is loaded or counted as read, except possibly the first file (then exactly once, and it is that file's tree)"""
+        lz = res_lz(v)
+        if lz is None:
+            return False
+        S, T, Rd = (lz.fields[f] for f in ("swcs", "trees", "reads"))
+        j = z3.Int(fresh_name("j"))
+        n = zint(S.n)
+        sel = z3.Select
+        return z3.And(zint(T.n) == n, zint(Rd.n) == n,
+                      z3.ForAll([j], z3.Implies(z3.And(j >= 1, j < n), z3.And(sel(T.cols[0], j) == 0, sel(Rd.cols[0], j) == 0))),
+                      z3.Implies(n > 0, z3.And(sel(Rd.cols[0], 0) >= 0, sel(Rd.cols[0], 0) <= 1, (sel(Rd.cols[0], 0) == 0) == (sel(T.cols[0], 0) == 0),
+                                               z3.Implies(sel(T.cols[0], 0) != 0, sel(T.cols[0], 0) == TREE_OF(sel(S.cols[0], 0))))))
+
+    def kwargs_forwarded(E, v, o):
+        lz = res_lz(v)
+        if lz is None:
+            return False
+        kw = lz.fields.get("kwargs")
+        want = o["kwargs"]
+        if not (isinstance(kw, PDict) and kw.items is not None and set(kw.items) == set(want.items)):
+            return False
+        acc = True
+        for k0, x in want.items.items():
+            y = kw.items[k0]
+            if isinstance(x, PList) and isinstance(y, PList) and x.items is not None and y.items is not None:
+                acc = acc and len(x.items) == len(y.items) and all(a == b or a is b for a, b in zip(x.items, y.items))
+            else:
+                acc = acc and (x is y or E.is_same(x, y) is True)
+        return acc
+
+    PROBE = ("at-most-a-probe-of-the-first-file :: ncalls('Tree.from_swc') == 0 and ncalls('LazyLoadingTrees.load') == 0 and ncalls('LazyLoadingTrees.__getitem__') <= 1 "
+             "and implies(ncalls('LazyLoadingTrees.__getitem__') == 1, callarg('LazyLoadingTrees.__getitem__', 0, 'key') == 0)")
+    COMMON = [("a-population-on-a-lazy-container-rooted-at-root-with-a-private-file-list", shape),
+              ("walks-the-directory-once-with-the-given-extension-absolute-paths", one_walk),
+              ("number-of-trees-is-the-number-of-files-found", files("length")),
+              ("i-th-tree-is-the-i-th-file-in-walk-order", files("content")),
+              ("nothing-loaded-or-read-except-possibly-the-first-file", lazy_state),
+              PROBE,
+              ("reader-options-forwarded-unchanged", kwargs_forwarded)]
+
+    def from_setup(with_kw):
+        def f(S):
+            kw = PDict({"extra_cols": PList(["a"])}) if with_kw else PDict({})
+            return dict(cls=Population, root=X.StrRef(S.int("root").z), ext=X.StrRef(S.int("ext").z), kwargs=kw, __ghost__=GHOST)
+
+        return f
+
+    R.add(f"{POP}:Population.from_swc", prop="C19",
+          variants={"no-options": from_setup(False), "with-reader-options": from_setup(True)},
+          raises={"FileNotFoundError": "only-when-the-root-does-not-exist :: not path_exists(root)"},
+          ensures=[("root-exists", lambda E, v, o: X.EXISTS(X.zref(o["root"])))] + COMMON,
+          notes="os.path.exists is a model; find_swcs is used through its contract; the constructors are inlined")
+
+    # from_eswc: the same population, the reader is told the extra columns: the given ones followed by the eswc columns
+    def eswc_setup(given):
+        def f(S):
+            g = None if given is None else PList(list(given))
+            return dict(cls=Population, root=X.StrRef(S.int("root").z), ext=X.StrRef(S.int("ext").z), extra_cols=g, given=g, kwargs=PDict({}), __ghost__=GHOST)
+
+        return f
+
+    def eswc_cols(E, v, o):
+        from swcgeom.core.swc import eswc_cols as real
+
+        lz = res_lz(v)
+        if lz is None:
+            return False
+        kw = lz.fields["kwargs"]
+        given = o["extra_cols"]
+        want = (list(given.items) if given is not None else []) + [k for k, _ in real]
+        got = kw.items.get("extra_cols") if kw.items is not None else None
+        return isinstance(got, PList) and got.items == want and set(kw.items) == {"extra_cols"}
+
+    def caller_list_untouched(E, v, o):
+        """the caller's extra_cols list is copied, not extended in place"""
+        g = v.get("given")
+        return True if g is None else (g.items == list(o["given"].items) and g is not res_lz(v).fields["kwargs"].items.get("extra_cols"))
+
+    R.add(f"{POP}:Population.from_eswc", prop="C19",
+          variants={"no-extra-columns": eswc_setup(None), "two-extra-columns": eswc_setup(("u", "w"))},
+          raises={"FileNotFoundError": "only-when-the-root-does-not-exist :: not path_exists(root)"},
+          ensures=[c for c in COMMON if c[0] != "reader-options-forwarded-unchanged"] + [("extra-columns-are-the-given-ones-then-the-eswc-columns", eswc_cols), ("callers-column-list-untouched", caller_list_untouched)],
+          notes="from_swc inlined")
+
+
+_reg19f = register
+
+
+def register(R):  # noqa: F811
+    _reg19f(R)
+    register_from_swc(R)
+
+
+# ---------------------------------------------------------------------------
+# Populations: constructor, iteration, number of populations, chaining
+TREES_FIELD = z3.Function("trees_of_population", _I, _I)  # ghost: the `trees` container of a population (opaque member)
+POP_PROTO = dict(TREES_PROTO)
+POP_PROTO[".trees"] = lambda eng, v: Opaque(TREES_FIELD(v.z), TREES_PROTO)
+
+
+def register_populations(R):
+    from pyvc.values import Obj, zint
+    from swcgeom.core.population import ChainTrees, Population, Populations
+
+    # ------------------------------------------------------------------ Populations.__init__
+    def init_setup(n, labels):
+        def f(S):
+            ps = PList([Opaque(z3.Int(fresh_name(f"p{i}")), TREES_PROTO) for i in range(n)])
+            lab = None
+            if labels is not None:
+                lab = PList([X.StrRef(S.int(f"label{i}").z) for i in range(n if labels == "as-many" else n + 1)])
+            return dict(self=S.obj(Populations), populations=ps, labels=lab, given=ps, given_labels=lab, __ghost__=GHOST)
+
+        return f
+
+    def init_min(E, v, o):
+        s, ps = v["self"], o["given"].items
+        m = to_z3(s.fields["len"], "int")
+        return z3.And(z3.And(*[m <= TLEN(p.z) for p in ps]), z3.Or(*[m == TLEN(p.z) for p in ps]))
+
+    def init_kept(E, v, o):
+        s, ps = v["self"], v["given"]
+        L = s.fields.get("populations")
+        return isinstance(L, PList) and L is not ps and L.items is not None and len(L.items) == len(ps.items) and all(a is b for a, b in zip(L.items, ps.items)) and ps.items == o["given"].items
+
+    def init_labels(E, v, o):
+        s, n = v["self"], len(o["given"].items)
+        L, g = s.fields.get("labels"), v["given_labels"]
+        if not (isinstance(L, PList) and L.items is not None and len(L.items) == n):
+            return False
+        if g is None:
+            return all(x == "" for x in L.items)
+        return L is not g and all(a is b for a, b in zip(L.items, g.items)) and len(g.items) == len(o["given_labels"].items)
+
+    R.add(f"{POP}:Populations.__init__", prop="C19",
+          variants={"one-population": init_setup(1, None), "two-populations": init_setup(2, None), "three-populations-labelled": init_setup(3, "as-many"),
+                    "two-populations-three-labels": init_setup(2, "too-many"), "no-population": init_setup(0, None)},
+          raises={"AssertionError": ("only-when-the-number-of-labels-differs", lambda E, v, o: o["given_labels"] is not None and len(o["given_labels"].items) != len(o["given"].items)),
+                  "ValueError": ("only-for-an-empty-list-of-populations", lambda E, v, o: len(o["given"].items) == 0)},
+          ensures=[("at-least-one-population-and-matching-labels", lambda E, v, o: len(o["given"].items) > 0 and (o["given_labels"] is None or len(o["given_labels"].items) == len(o["given"].items))),
+                   ("len-is-the-minimum-length-of-the-populations", init_min),
+                   ("populations-kept-in-order-in-a-private-list", init_kept),
+                   ("labels-are-the-given-ones-or-empty-strings-one-per-population", init_labels)],
+          notes="fixed numbers of populations (0..3), each of symbolic length; `populations` a list (the code iterates its argument three times)")
+
+    # ------------------------------------------------------------------ num_of_populations / __iter__
+    def pops_obj(S):
+        ps = S.plist("ref", name="populations")
+        ps.proto = POP_PROTO
+        return S.obj(Populations, populations=ps, len=S.int("len"), labels=PList([]))
+
+    R.add(f"{POP}:Populations.num_of_populations", prop="C19", setup=lambda S: dict(self=pops_obj(S)), returns="int",
+          ensures=["number-of-populations :: result == len_(self.populations)"])
+
+    def row(E, v, o):
+        r, ps = v["got"], v["self"].fields["populations"]
+        if not isinstance(r, PList) or r.items is not None:
+            return False
+        m = z3.Int(fresh_name("m"))
+        k = to_z3(v["k"], "int")
+        return z3.And(zint(r.n) == zint(ps.n), z3.ForAll([m], z3.Implies(z3.And(m >= 0, m < zint(ps.n)), z3.Select(r.cols[0], m) == ITEM(z3.Select(ps.cols[0], m), k))))
+
+    R.add(f"{POP}:Populations.__iter__", prop="C19",
+          setup=lambda S: dict(self=pops_obj(S), __ghost__=GHOST),
+          requires=["len-is-a-length :: self.len >= 0"],
+          options=dict(genexp_hook=X.genexp_hook),
+          ghost_exit=lambda E, v, o: X.arbitrary_item(E, v["result"], "Populations.__iter__/item", dict(self=v["self"]), [],
+                                                      [("item-k-is-the-row-of-the-k-th-tree-of-every-population-in-order", row)]),
+          ensures=[("a-lazy-iterator-with-len-rows", _is_lazy_iter("self.len")), CREATION])
+
+    # ------------------------------------------------------------------ Populations.to_population
+    def chain_of(v):
+        r = v["result"]
+        if not (isinstance(r, Obj) and r.cls is Population):
+            return None
+        c = r.fields.get("trees")
+        return c if isinstance(c, Obj) and c.cls is ChainTrees else None
+
+    def members(E, v, o):
+        c, ps = chain_of(v), v["self"].fields["populations"]
+        if c is None or not isinstance(c.fields.get("trees"), PList) or c.fields["trees"].items is not None:
+            return False
+        L = c.fields["trees"]
+        m = z3.Int(fresh_name("m"))
+        return z3.And(zint(L.n) == zint(ps.n), z3.ForAll([m], z3.Implies(z3.And(m >= 0, m < zint(ps.n)), z3.Select(L.cols[0], m) == TREES_FIELD(z3.Select(ps.cols[0], m)))))
+
+    def chain_clause(text):
+        def f(E, v, o):
+            c = chain_of(v)
+            if c is None:
+                return False
+            from pyvc.spec import eval_clause
+
+            return eval_clause(E, text, dict(self=c, result=v["result"]), None, old_vars=o, extra=E.spec_extra)
+
+        return f
+
+    R.add(f"{POP}:Populations.to_population", prop="C19",
+          setup=lambda S: dict(self=pops_obj(S), __ghost__=GHOST),
+          ensures=[("a-population-on-a-chain-with-no-root", lambda E, v, o: chain_of(v) is not None and v["result"].fields.get("root") == ""),
+                   ("members-are-the-populations'-containers-in-order", members)]
+          + [(lab.strip().replace("wf-", "chain/"), chain_clause(txt.strip())) for lab, txt in (c.split("::", 1) for c in WF_CHAIN)]
+          + [("total-length-is-the-sum-of-the-member-lengths(last-prefix-sum)", chain_clause("len_(result) == self.cumsum[len_(self.trees)]")),
+             "at-most-a-probe-of-the-first-tree :: ncalls('ChainTrees.__getitem__') <= 1 and implies(ncalls('ChainTrees.__getitem__') == 1, callarg('ChainTrees.__getitem__', 0, 'key') == 0) and ncalls('Trees.__getitem__') == 0"],
+          notes="any number of populations, each an opaque container of symbolic length; ChainTrees.__init__ and Population.__init__ are inlined, "
+                "ChainTrees.__len__/__getitem__ (the constructor's probe) enter through their contracts")
+
+
+_reg19g = register
+
+
+def register(R):  # noqa: F811
+    _reg19g(R)
+    register_populations(R)
+
+
+# ---------------------------------------------------------------------------
+# Populations.from_swc: one population per root; with intersect=True (default) every population lists the SAME relative
+# paths in the SAME order (the paths found under every root, each once), joined with its own root, so that row i holds
+# same-named files.  set / intersection / list(set) / functools.reduce are models (pyvc/ext_C19.py): the order in which
+# list(set) enumerates is left unconstrained (it depends on the hash seed), what is proved is that all populations share it.
+def register_populations_from_swc(R):
+    from pyvc.values import Obj, PDict, zint
+    from swcgeom.core.population import LazyLoadingTrees, Population, Populations
+
+    def setup(k, intersect, labels=False, check_same=False):
+        def f(S):
+            roots = PList([X.StrRef(S.int(f"root{a}").z) for a in range(k)])
+            lab = PList([X.StrRef(S.int(f"label{a}").z) for a in range(k)]) if labels else None
+            return dict(cls=Populations, roots=roots, ext=X.StrRef(S.int("ext").z), intersect=intersect, check_same=check_same, labels=lab,
+                        kwargs=PDict({}), given_roots=roots, given_labels=lab, __ghost__=GHOST)
+
+        return f
+
+    def pops(v):
+        """[(population, its lazy container)] of the result, or None"""
+        r = v["result"]
+        if not (isinstance(r, Obj) and r.cls is Populations):
+            return None
+        L = r.fields.get("populations")
+        if not (isinstance(L, PList) and L.items is not None):
+            return None
+        out = []
+        for p in L.items:
+            if not (isinstance(p, Obj) and p.cls is Population):
+                return None
+            lz = p.fields.get("trees")
+            if not (isinstance(lz, Obj) and lz.cls is LazyLoadingTrees and all(isinstance(lz.fields.get(f), PList) and lz.fields[f].items is None for f in ("swcs", "trees", "reads"))):
+                return None
+            out.append((p, lz))
+        return out
+
+    def searches(E, v, o):
+        cs = [a for nm, a in E.call_log if nm == "Population.find_swcs"]
+        roots = o["given_roots"].items
+        return len(cs) == len(roots) and all(E.is_same(c["root"], r) is True and E.is_same(c["ext"], o["ext"]) is True and c["relpath"] is True for c, r in zip(cs, roots))
+
+    def found(E):
+        return [a["__result__"] for nm, a in E.call_log if nm == "Population.find_swcs"]
+
+    def one_per_root(E, v, o):
+        ps, roots = pops(v), o["given_roots"].items
+        return ps is not None and len(ps) == len(roots) and all(E.is_same(p.fields.get("root"), r) is True for (p, _), r in zip(ps, roots))
+
+    def rel_term(E, v, o, i):
+        """the relative path of row i, read off population 0: its i-th file is join(root0, REL(i))"""
+        ps = pops(v)
+        t = z3.simplify(z3.Select(ps[0][1].fields["swcs"].cols[0], i))
+        if t.decl().name() != X.JOIN.name() or not z3.simplify(t.arg(0) == X.zref(o["given_roots"].items[0])).eq(z3.BoolVal(True)):
+            return None
+        return t.arg(1)
+
+    def same_named(E, v, o):
+        ps = pops(v)
+        if not ps:
+            return False
+        i = z3.Int(fresh_name("row"))
+        rel = rel_term(E, v, o, i)
+        if rel is None:
+            return False
+        n0 = zint(ps[0][1].fields["swcs"].n)
+        acc = []
+        for (p, lz), r in zip(ps, o["given_roots"].items):
+            S_ = lz.fields["swcs"]
+            acc.append(zint(S_.n) == n0)
+            acc.append(z3.ForAll([i], z3.Implies(z3.And(i >= 0, i < n0), z3.Select(S_.cols[0], i) == X.JOIN(X.zref(r), rel))))
+        return z3.And(*acc)
+
+    def rows_found_everywhere(E, v, o):
+        ps, F = pops(v), found(E)
+        i = z3.Int(fresh_name("row"))
+        rel = rel_term(E, v, o, i)
+        if rel is None or len(F) != len(ps):
+            return False
+        n0 = zint(ps[0][1].fields["swcs"].n)
+        ws = {id(L): (idx, n, col) for L, idx, n, col in E.ghost.get("set-witnesses", [])}
+        acc = []
+        for Fa in F:
+            if len(F) == 1:
+                acc.append(z3.And(n0 == zint(Fa.n), z3.ForAll([i], z3.Implies(z3.And(i >= 0, i < n0), rel == z3.Select(Fa.cols[0], i)))))
+                continue
+            if id(Fa) not in ws:
+                return False
+            idx, n, col = ws[id(Fa)]
+            acc.append(z3.ForAll([i], z3.Implies(z3.And(i >= 0, i < n0), z3.And(idx(rel) >= 0, idx(rel) < zint(Fa.n), z3.Select(Fa.cols[0], idx(rel)) == rel))))
+        return z3.And(*acc)
+
+    def common_all_listed_once(E, v, o):
+        ps, F = pops(v), found(E)
+        if len(F) == 1:
+            return True
+        i, i2, x = z3.Int(fresh_name("row")), z3.Int(fresh_name("row2")), z3.Int(fresh_name("name"))
+        rel = rel_term(E, v, o, i)
+        enums = E.ghost.get("set-enumerations", [])
+        if rel is None or len(enums) != 1:
+            return False
+        _, _, pos = enums[0]
+        n0 = zint(ps[0][1].fields["swcs"].n)
+        j = [z3.Int(fresh_name("j")) for _ in F]
+        everywhere = z3.And(*[z3.And(jj >= 0, jj < zint(Fa.n), z3.Select(Fa.cols[0], jj) == x) for jj, Fa in zip(j, F)])
+        rel_at = lambda t: z3.substitute(rel, (i, t))
+        return z3.And(z3.ForAll([x] + j, z3.Implies(everywhere, z3.And(pos(x) >= 0, pos(x) < n0, rel_at(pos(x)) == x))),
+                      z3.ForAll([i, i2], z3.Implies(z3.And(i >= 0, i < i2, i2 < n0), rel_at(i) != rel_at(i2))))
+
+    def as_found(E, v, o):
+        """intersect=False: population a lists the files found under its own root, in that order"""
+        ps, F = pops(v), found(E)
+        if ps is None or len(F) != len(ps):
+            return False
+        i = z3.Int(fresh_name("row"))
+        acc = []
+        for (p, lz), r, Fa in zip(ps, o["given_roots"].items, F):
+            S_ = lz.fields["swcs"]
+            acc.append(z3.And(zint(S_.n) == zint(Fa.n), z3.ForAll([i], z3.Implies(z3.And(i >= 0, i < zint(Fa.n)), z3.Select(S_.cols[0], i) == X.JOIN(X.zref(r), z3.Select(Fa.cols[0], i))))))
+        return z3.And(*acc)
+
+    def length(E, v, o):
+        ps = pops(v)
+        m = to_z3(v["result"].fields["len"], "int")
+        ns = [zint(lz.fields["swcs"].n) for _, lz in ps]
+        return z3.And(z3.And(*[m <= n for n in ns]), z3.Or(*[m == n for n in ns]))
+
+    def labels(E, v, o):
+        L, g, k = v["result"].fields.get("labels"), o["given_labels"], len(o["given_roots"].items)
+        if not (isinstance(L, PList) and L.items is not None and len(L.items) == k):
+            return False
+        return all(x == "" for x in L.items) if g is None else all(E.is_same(a, b) is True for a, b in zip(L.items, g.items))
+
+    def lazy(E, v, o):
+        """in every population: nothing loaded or counted as read except possibly its first file; the object invariant holds"""
+        acc = []
+        for p, lz in pops(v):
+            S_, T, Rd = (lz.fields[f] for f in ("swcs", "trees", "reads"))
+            j = z3.Int(fresh_name("j"))
+            n, sel = zint(S_.n), z3.Select
+            acc.append(z3.And(zint(T.n) == n, zint(Rd.n) == n,
+                              z3.ForAll([j], z3.Implies(z3.And(j >= 1, j < n), z3.And(sel(T.cols[0], j) == 0, sel(Rd.cols[0], j) == 0))),
+                              z3.Implies(n > 0, z3.And(sel(Rd.cols[0], 0) >= 0, sel(Rd.cols[0], 0) <= 1, (sel(Rd.cols[0], 0) == 0) == (sel(T.cols[0], 0) == 0),
+                                                       z3.Implies(sel(T.cols[0], 0) != 0, sel(T.cols[0], 0) == TREE_OF(sel(S_.cols[0], 0)))))))
+        return z3.And(*acc)
+
+    def probes(E, v, o):
+        cs = [a for nm, a in E.call_log if nm == "LazyLoadingTrees.__getitem__"]
+        ps = pops(v)
+        direct = [nm for nm, _ in E.call_log if nm in ("Tree.from_swc", "LazyLoadingTrees.load")]
+        if direct or len(cs) > len(ps):
+            return False
+        seen = []
+        for c in cs:  # at most one probe per population, each of index 0
+            if c["self"] in seen or not any(c["self"] is lz for _, lz in ps) or not (isinstance(c["key"], int) and c["key"] == 0):
+                return False
+            seen.append(c["self"])
+        return True
+
+    BASE = [("one-population-per-root-in-order-each-rooted-at-its-root", one_per_root),
+            ("every-root-searched-once-for-relative-paths-with-the-extension", searches),
+            ("len-is-the-minimum-population-length", length),
+            ("labels-given-or-empty-one-per-population", labels),
+            ("nothing-loaded-or-read-except-possibly-the-first-file-of-each-population", lazy),
+            ("at-most-one-probe-of-file-0-per-population-no-direct-read", probes)]
+    MATCH = [("row-i-holds-same-named-files:the-same-relative-path-joined-with-each-root-same-order-everywhere", same_named),
+             ("every-row-name-was-found-under-every-root", rows_found_everywhere),
+             ("every-name-found-under-all-roots-has-exactly-one-row", common_all_listed_once)]
+
+    R.add(f"{POP}:Populations.from_swc", prop="C19",
+          variants={"one-root": setup(1, True), "two-roots": setup(2, True), "three-roots-labelled": setup(3, True, labels=True)},
+          ensures=BASE + MATCH,
+          notes="fixed numbers of roots (1..3); walks, file lists, extension symbolic; find_swcs through its contract; constructors inlined")
+    R.add(f"{POP}:Populations.from_swc", prop="C19",
+          variants={"two-roots-no-intersection": setup(2, False)},
+          ensures=BASE + [("without-intersection-each-population-lists-what-was-found-under-its-root-in-that-order", as_found)],
+          notes="intersect=False: no matching; only the minimum length is recorded")
+
+    # Populations.from_eswc: the same matching, every reader is told the extra columns (given ones, then the eswc columns)
+    def eswc_setup(given):
+        def f(S):
+            roots = PList([X.StrRef(S.int(f"root{a}").z) for a in range(2)])
+            g = None if given is None else PList(list(given))
+            return dict(cls=Populations, roots=roots, extra_cols=g, ext=X.StrRef(S.int("ext").z), kwargs=PDict({}), given_roots=roots, given_labels=None, given=g, __ghost__=GHOST)
+
+        return f
+
+    def eswc_columns(E, v, o):
+        from swcgeom.core.swc import eswc_cols as real
+
+        given = o["given"]
+        want = (list(given.items) if given is not None else []) + [k for k, _ in real]
+        ps = pops(v)
+        if not ps:
+            return False
+        for _, lz in ps:
+            kw = lz.fields.get("kwargs")
+            got = kw.items.get("extra_cols") if isinstance(kw, PDict) and kw.items is not None else None
+            if not (isinstance(got, PList) and got.items == want and set(kw.items) == {"extra_cols"}):
+                return False
+        return v.get("given") is None or v["given"].items == list(given.items)
+
+    R.add(f"{POP}:Populations.from_eswc", prop="C19",
+          variants={"two-roots": eswc_setup(None), "two-roots-one-extra-column": eswc_setup(("u",))},
+          ensures=BASE + MATCH + [("every-reader-gets-the-given-columns-then-the-eswc-columns-callers-list-untouched", eswc_columns)],
+          notes="Populations.from_swc inlined")
+
+    # FINDING (genuine defect, replayed natively: tools/replay_C19_check_same.py): with intersect=False the
+    # option check_same=True is documented as "Check if the directories contains the same swc", but the code asserts a
+    # NON-EMPTY LIST (`assert [fs[0] == a for a in fs[1:]]`), which is always true for two or more roots: directories with
+    # different file sets are accepted and row i pairs differently named files.  (With ONE root the list is empty and the
+    # call always raises AssertionError.)  The clause below is what the option promises; it FAILS on the unchanged code.
+    def same_lists(E, v, o):
+        F = found(E)
+        i = z3.Int(fresh_name("row"))
+        return z3.And(*[z3.And(zint(Fa.n) == zint(F[0].n), z3.ForAll([i], z3.Implies(z3.And(i >= 0, i < zint(F[0].n)), z3.Select(Fa.cols[0], i) == z3.Select(F[0].cols[0], i)))) for Fa in F[1:]])
+
+    R.add(f"{POP}:Populations.from_swc", prop="C19",
+          variants={"two-roots-check-same": setup(2, False, check_same=True)},
+          raises={"AssertionError": ("only-when-some-root-lists-different-relative-paths", lambda E, v, o: True)},
+          ensures=[("check_same:accepted-only-if-every-root-lists-the-same-relative-paths", same_lists)],  # FINDING
+          notes="FINDING: check_same never rejects")
+
+
+_reg19h = register
+
+
+def register(R):  # noqa: F811
+    _reg19h(R)
+    register_populations_from_swc(R)
+
+
+# ---------------------------------------------------------------------------
+# Population.map(fn): "returns one result per tree in order".  The process pool enters as an ASSUMED model
+# (pyvc/ext_C19.py: Executor.map(fn, xs) = iterator over [fn(x) for x in xs], xs consumed in the caller, fn pure in workers);
+# the argument plumbing is real code: `(t for t in self.trees)` is the LAZY iterator of the container, consumed by the model
+# through the consumer rule with the invariant below (item j submitted = the j-th tree; cache / read-counter invariant kept).
+X.install_pools()
+APPLY = z3.Function("apply_fn", _I, _I)  # the mapped function (pure: it runs in worker processes on pickled copies)
+
+
+def register_map(R):
+    from pyvc.values import zint
+    from swcgeom.core.population import ChainTrees, Population
+
+    def setup(kind, verbose):
+        def f(S):
+            trees = lazy_obj(S) if kind == "lazy" else chain_obj(S)
+            return dict(self=S.obj(Population, trees=trees, root=""), fn=S.callback("fn", lambda E, a, k: Sym(APPLY(to_z3(a[0], "int")), "oref")),
+                        max_worker=None, verbose=verbose, __ghost__=GHOST)
+
+        return f
+
+    def is_lazy(v):
+        return getattr(v["self"].fields["trees"].cls, "__name__", "") == "LazyLoadingTrees"
+
+    def tree_k(v, j):
+        """the j-th tree of the population: (condition, term)"""
+        t = v["self"].fields["trees"]
+        if is_lazy(v):
+            return z3.BoolVal(True), (lambda x: x == TREE_OF(z3.Select(t.fields["swcs"].cols[0], j)))
+        C, M = t.fields["cumsum"], t.fields["trees"]
+        m = z3.Int(fresh_name("m"))
+        return None, (lambda x: z3.Exists([m], z3.And(m >= 0, m < zint(M.n), z3.Select(C.arr, m) <= j, j < z3.Select(C.arr, m + 1),
+                                                       x == ITEM(z3.Select(M.cols[0], m), j - z3.Select(C.arr, m)))))
+
+    j = z3.Int("j")
+
+    def submitted(E, v, o):
+        xs, k = v["__out__"], to_z3(v["_k"], "int")
+        _, is_tree = tree_k(v, j)
+        return z3.And(zint(xs.n) == k, z3.ForAll([j], z3.Implies(z3.And(j >= 0, j < k), is_tree(z3.Select(xs.cols[0], j)))))
+
+    def lazy_inv(E, v, o):
+        if not is_lazy(v):
+            return True
+        t = v["self"].fields["trees"]
+        k = to_z3(v["_k"], "int")
+        T = t.fields["trees"].cols[0]
+        return E.and_(_all(E, wf_lazy("self.trees") + frame_lazy("self.trees")[:1], v, o), z3.ForAll([j], z3.Implies(z3.And(j >= 0, j < k), z3.Select(T, j) != 0)))
+
+    def chain_inv(E, v, o):
+        return True if is_lazy(v) else _all(E, WF_CHAIN, dict(self=v["self"].fields["trees"]), o)
+
+    RULE = dict(kind="oref", invariant=[("item-j-submitted-is-the-j-th-tree", submitted), ("cache-invariant-and-everything-requested-so-far-is-loaded", lazy_inv), ("chain-well-formed", chain_inv)])
+
+    def results(E, v, o):
+        r = v["result"]
+        if v["verbose"]:
+            res = r if isinstance(r, PList) else None
+        else:
+            res = r.seq if isinstance(r, Iter) and isinstance(r.seq, PList) and not r.consumed else None
+        if res is None or res.items is not None:
+            return False
+        t = v["self"].fields["trees"]
+        n = zint(t.fields["swcs"].n) if is_lazy(v) else z3.Select(t.fields["cumsum"].arr, zint(t.fields["trees"].n))
+        x = z3.Int(fresh_name("x"))
+        _, is_tree = tree_k(v, j)
+        return z3.And(zint(res.n) == n, z3.ForAll([j], z3.Implies(z3.And(j >= 0, j < n), z3.Exists([x], z3.And(is_tree(x), z3.Select(res.cols[0], j) == APPLY(x))))))
+
+    def each_once(E, v, o):
+        return True if not is_lazy(v) else _all(E, wf_lazy("self.trees") + frame_lazy("self.trees")[:2], v, o)
+
+    R.add(f"{POP}:Population.map", prop="C19",
+          variants={"lazy-container": setup("lazy", False), "lazy-container-verbose": setup("lazy", True), "chained-container": setup("chain", False)},
+          requires=[("object-invariant", lambda E, v, o: _all(E, wf_lazy("self.trees"), v) if is_lazy(v) else _all(E, WF_CHAIN, dict(self=v["self"].fields["trees"])))],
+          options=dict(genexp_hook=X.genexp_hook, pool_rule=RULE),
+          ensures=[("one-result-per-tree-in-order:result-k-is-fn-of-the-k-th-tree", results),
+                   ("each-file-read-at-most-once(object-invariant-kept-files-untouched)", each_once)],
+          notes="ASSUMED model of the process pool (see trusted_base); containers: LazyLoadingTrees, ChainTrees; fn an arbitrary pure function")
+
+
+_reg19i = register
+
+
+def register(R):  # noqa: F811
+    _reg19i(R)
+    register_map(R)
+
+
+# ---------------------------------------------------------------------------
+# PopulationTransform.__call__(population): "one result per tree, in order".  The loop `for t in population` consumes the
+# population's LAZY iterator (pyvc.loops: the element is evaluated inside the arbitrary iteration, the cache / read counters are
+# loop state).  Trees are references; their `source` attribute lives in a ghost field heap `sources` (reference -> string
+# reference, contract option ref_attr_hook); the wrapped transform is an arbitrary pure function TF of the tree.
+TPOP = "swcgeom/transforms/population.py"
+TF = z3.Function("transform_of", _I, _I)
+
+
+def _source_heap(E, v, name, val, store):
+    if name != "source":
+        return NotImplemented
+    heap = E.ghost.get("heap:source")
+    if heap is None:
+        return NotImplemented
+    if store:
+        heap.arr = z3.Store(heap.arr, v.z, X.zref(val))
+        return None
+    return X.StrRef(z3.Select(heap.arr, v.z))
+
+
+def register_transform(R):
+    from pyvc.values import Obj, zint
+    from swcgeom.core.population import Population
+    from swcgeom.transforms.population import PopulationTransform
+
+    def tf_model(eng, fn, args, kwargs):
+        eng.assumptions.add("C19-model: the wrapped transform is an arbitrary PURE function of the tree (it touches neither the population nor any `source`)")
+        return Sym(TF(to_z3(args[0], "int")), "oref")
+
+    def setup(S):
+        heap = S.arr("ref", name="source_of")
+        S.eng.ghost["heap:source"] = heap
+        pop = S.obj(Population, trees=lazy_obj(S), root=X.StrRef(S.int("root").z))
+        return dict(self=S.obj(PopulationTransform, transform=Opaque(z3.Int(fresh_name("tf")), {"__call__": tf_model})), population=pop,
+                    sources=heap, given=pop, __ghost__=GHOST)
+
+    EMPTY = X.intern_str("")
+    j, x = z3.Int("j"), z3.Int("x")
+
+    def parts(v, o):
+        lz = v["given"].fields["trees"]
+        return lz.fields["swcs"].cols[0], zint(lz.fields["swcs"].n), lz.fields["trees"].cols[0], v["sources"].arr, o["sources"].arr
+
+    def results_upto(L, v, o, k):
+        S_, n, T, H, H0 = parts(v, o)
+        if L.items is not None:
+            return len(L.items) == 0 and z3.simplify(k == 0)
+        return z3.And(zint(L.n) == k, z3.ForAll([j], z3.Implies(z3.And(j >= 0, j < k), z3.Select(L.cols[0], j) == TF(TREE_OF(z3.Select(S_, j))))))
+
+    def loaded_upto(v, o, k):
+        S_, n, T, H, H0 = parts(v, o)
+        return z3.ForAll([j], z3.Implies(z3.And(j >= 0, j < k), z3.Select(T, j) != 0))
+
+    def sources_kept(v, o):
+        S_, n, T, H, H0 = parts(v, o)
+        return z3.ForAll([x], z3.Implies(z3.Select(H0, x) != EMPTY, z3.Select(H, x) == z3.Select(H0, x)))
+
+    def sources_filled(L, v, o, k):
+        S_, n, T, H, H0 = parts(v, o)
+        if L.items is not None:
+            return True
+        return z3.ForAll([j], z3.Implies(z3.And(j >= 0, j < k), z3.Or(z3.Select(H, z3.Select(L.cols[0], j)) != EMPTY, z3.Select(H0, TREE_OF(z3.Select(S_, j))) == EMPTY)))
+
+    K = lambda v: to_z3(v["_k0"], "int")
+    INV = [("result-j-is-the-transform-of-the-j-th-tree", lambda E, v, o: results_upto(v["trees"], v, o, K(v))),
+           ("object-invariant-files-untouched", lambda E, v, o: _all(E, wf_lazy("given.trees") + frame_lazy("given.trees")[:1], v, o)),
+           ("every-tree-requested-so-far-is-loaded", lambda E, v, o: loaded_upto(v, o, K(v))),
+           ("a-non-empty-source-is-never-overwritten", lambda E, v, o: sources_kept(v, o)),
+           ("every-result-so-far-has-a-source-unless-its-input-had-none", lambda E, v, o: sources_filled(v["trees"], v, o, K(v)))]
+
+    def res_list(v):
+        r = v["result"]
+        if not (isinstance(r, Obj) and r.cls is Population):
+            return None
+        L = r.fields.get("trees")
+        return L if isinstance(L, PList) and L.items is None else None
+
+    def shape(E, v, o):
+        L = res_list(v)
+        return L is not None and L.uid not in E.entry_uids and E.is_same(v["result"].fields.get("root"), o["given"].fields["root"]) is True
+
+    def n_of(v, o):
+        return parts(v, o)[1]
+
+    def input_untouched(E, v, o):
+        g = v["given"]
+        return g.fields["trees"].uid == o["given"].fields["trees"].uid and E.is_same(g.fields["root"], o["given"].fields["root"]) is True and v["population"] is g
+
+    R.add(f"{TPOP}:PopulationTransform.__call__", prop="C19",
+          setup=setup,
+          requires=wf_lazy("population.trees"),
+          options=dict(genexp_hook=X.genexp_hook, ref_attr_hook=_source_heap),
+          loops={0: dict(invariant=INV, types={"trees": "oref"}, modifies=["sources"])},
+          ensures=[("a-new-population-on-a-fresh-list-with-the-same-root", shape),
+                   ("one-result-per-tree-in-order:result-k-is-the-transform-of-the-k-th-tree", lambda E, v, o: False if res_list(v) is None else results_upto(res_list(v), v, o, n_of(v, o))),
+                   ("a-result-that-has-a-source-keeps-it", lambda E, v, o: sources_kept(v, o)),
+                   ("a-result-without-a-source-inherits-its-input's", lambda E, v, o: False if res_list(v) is None else sources_filled(res_list(v), v, o, n_of(v, o))),
+                   ("each-file-read-at-most-once(object-invariant-kept-files-untouched)", lambda E, v, o: _all(E, wf_lazy("given.trees") + frame_lazy("given.trees")[:2], v, o)),
+                   ("input-population-keeps-its-container-and-root", input_untouched)],
+          notes="population on a LazyLoadingTrees; the wrapped transform is an uninterpreted pure function; `source` attributes in a ghost heap")
+
+
+_reg19j = register
+
+
+def register(R):  # noqa: F811
+    _reg19j(R)
+    register_transform(R)
